@@ -242,6 +242,46 @@ pub fn run(ctx: &Ctx) -> i32 {
         }
         rep.extra.insert("lemire_second_product_search".into(), json!({"method": "smallest x with l <= a*x mod 2^137 (2^166 for f32) <= r, iterated over [2^63, 2^64), all 651 table entries", "pairs_found": pairs.len(), "exhaustive": true}));
     }
+    // 1e. enumerated special significands x every decimal exponent x both flags: w in {2^k - 1, 2^k, 2^k + 1}
+    // (k = 1..64: the normalising shift, `w + 1` carrying out of the word, single-bit products) and
+    // {10^k - 1, 10^k, 10^k + 1} (k = 1..19), q from below the underflow cut-off to above the overflow cut-off
+    {
+        let mut ws: Vec<u64> = Vec::new();
+        for k in 1..=64u32 {
+            let p = if k == 64 { 0u64 } else { 1u64 << k };
+            ws.extend([p.wrapping_sub(1), p, p.wrapping_add(1)]);
+        }
+        for k in 1..=19u32 {
+            let p = 10u64.pow(k);
+            ws.extend([p - 1, p, p + 1]);
+        }
+        ws.retain(|&w| w != 0);
+        ws.sort_unstable();
+        ws.dedup();
+        let (qlo, qhi) = (-370i32, 330i32);
+        let per_w = (qhi - qlo + 1) as u64 * 4;
+        let n = ws.len() as u64 * per_w;
+        let r = run_sweep(n, ctx.threads, |i, stats| {
+            let w = ws[(i / per_w) as usize];
+            let j = i % per_w;
+            let q = qlo + (j / 4) as i32;
+            let fmt = if j % 2 == 0 { Fmt::F64 } else { Fmt::F32 };
+            let t = (j % 4) >= 2;
+            if t && w == u64::MAX {
+                return Ok(());
+            }
+            check_one(fmt, w, q, t, stats)?;
+            if i % 100_003 == 0 {
+                stats.sample("special significand sweep", || json!({"w": w, "q": q, "truncated": t, "format": fmt.name()}));
+            }
+            Ok(())
+        });
+        let m = r.stats.evaluations;
+        rep.absorb(r);
+        rep.stats.class("special-significand sweep (enumerated)");
+        rep.extra.insert("special_significand_sweep".into(), json!({"significands": ws.len(), "q_range": [qlo, qhi], "points": m, "complete": true}));
+        sweep_distinct += m;
+    }
     // 2. generated cases
     let cases = ctx.cases(1_500_000, 100_000_000);
     let r = run_recipes(ctx.seed, cases, ctx.threads, 11, |r, stats| {
